@@ -30,9 +30,9 @@ package parsers
 //@   assigns nothing
 //@   nopanic
 //
-// a classified token: a valid variant value; variables (and calls) carry their name as a string
+// a classified token: a valid variant value; variables (and calls) carry their name, never empty, as a string
 //@ pred tokOK(t *ExpressionToken) = t != nil && t.value != nil && vinv(t.value) &&
-//@     (t.typ == Variable ==> t.value.typ == variants.String) && t.typ != Function && t.typ != Unary
+//@     (t.typ == Variable ==> t.value.typ == variants.String && t.value.value.(string) != "") && t.typ != Function && t.typ != Unary
 //@ pred idxInv(c *ExpressionParser) = c != nil && 0 <= c.currentTokenIndex && c.currentTokenIndex <= len(c.initialTokens) &&
 //@     (arr(c.resultTokens) != arr(c.initialTokens) || arr(c.resultTokens) == 0)
 //@ pred parserInv(c *ExpressionParser) = idxInv(c) && (forall i int :: 0 <= i && i < len(c.initialTokens) ==> tokOK(c.initialTokens[i]))
